@@ -64,7 +64,8 @@ def gen_scenario(seed, i):
     tsteps = {}
     for j, (on, secs) in enumerate(picks):
         sid = f"ts{j}"
-        rules.append({"on": on, "steps": [{"id": sid, "acts": [{"id": f"ta{j}", "uses": gen.MSG, "key": f"tk{j}"}]}]})
+        # (a handler that waits for a client keeps the rule's steps open across later ticks, evictions and restarts)
+        rules.append({"on": on, "steps": [{"id": sid, "acts": [{"id": f"ta{j}", "uses": gen.IRQ if i % 4 == 3 and rng.chance(1, 2) else gen.MSG, "key": f"tk{j}"}]}]})
         tsteps[sid] = on
     act = {"id": "a1", "uses": gen.IRQ, "key": "k1"}
     step = {"id": "s1", "acts": [act]}
